@@ -382,19 +382,51 @@ class SymExec:
             return None
         p = None
         c = strip_casts(stmt['c'])
-        if c.get('k') == 'bin' and c['op'] == '<' and is_ref(c['l']):
-            ivar = strip_casts(c['l'])
-            B = self.lin(c['r'], st)
+        if not (c.get('k') == 'bin' and c['op'] in ('<', '!=') and is_ref(c['l'])):
+            return None
+        ivar = strip_casts(c['l'])
+        incs = []
+
+        def flat_inc(x):
+            x = strip_casts(x)
+            if x.get('k') == 'bin' and x['op'] == ',':
+                flat_inc(x['l'])
+                flat_inc(x['r'])
+            else:
+                incs.append(x)
+        flat_inc(stmt['inc'])
+        inc_vars = []
+        for x in incs:
+            if x.get('k') == 'un' and x['op'] in ('post++', 'pre++') and is_ref(x['e']):
+                inc_vars.append(strip_casts(x['e'])['d'])
+            else:
+                return None
+        if ivar['d'] not in inc_vars:
+            return None
+        pointer_loop = self.u.ty(ivar['ty'])['c'] == 'ptr'
+        if pointer_loop:
+            # for (p = base; p < base + B; p++): B iterations
+            init = stmt.get('init')
+            init = strip_casts(init) if init is not None else None
+            if not (init is not None and init.get('k') == 'bin' and init['op'] == '=' and is_ref(init['l']) and
+                    strip_casts(init['l'])['d'] == ivar['d']):
+                return None
+            base = expr_str(strip_casts(init['r']))
+            r = strip_casts(c['r'])
+            if not (r.get('k') == 'bin' and r['op'] == '+' and expr_str(strip_casts(r['l'])) == base):
+                return None
+            B = self.lin(r['r'], st)
+            if B is None:
+                return None
         else:
-            return None
-        inc = strip_casts(stmt['inc'])
-        if not (inc.get('k') == 'un' and inc['op'] in ('post++', 'pre++') and is_ref(inc['e']) and strip_casts(inc['e'])['d'] == ivar['d']):
-            return None
-        if st.env.get(ivar['d']) is None or not st.env[ivar['d']].eq(Lin(0)) or B is None:
-            return None
+            B = self.lin(c['r'], st)
+            if st.env.get(ivar['d']) is None or not st.env[ivar['d']].eq(Lin(0)) or B is None:
+                return None
+        lockstep = [d for d in inc_vars if d != ivar['d']]
         # body: stores through a grant pointer, either `*q++ = c` (cursor) or q[i] = .. (index)
         cursor_steps = 0
         index_writes = False
+        lock_writes = False
         qd = None
         for x in walk(stmt['body']):
             k = x.get('k')
@@ -416,6 +448,8 @@ class SymExec:
                     cursor_steps += 1
                 elif not isinstance(idx, int) and is_ref(idx) and strip_casts(idx)['d'] == ivar['d']:
                     index_writes = True
+                elif idx == 0 and b['d'] in lockstep:
+                    lock_writes = True
                 else:
                     return None
             elif k == 'call' or k in ('while', 'for', 'do', 'goto', 'return'):
@@ -423,7 +457,11 @@ class SymExec:
         if qd is None:
             return None
         st = st.copy()
-        if cursor_steps and not index_writes:
+        if lock_writes and not cursor_steps and not index_writes:
+            # *q = ...; with q advanced once per iteration in the loop header
+            self.write(st, stmt, st.ptr[qd], B, False, 'loop of %s iteration(s), one byte each through a cursor stepped in the loop header' % B)
+            st.ptr[qd] = st.ptr[qd].add(B)
+        elif cursor_steps and not index_writes:
             n = Lin(B.c * cursor_steps, {k2: v * cursor_steps for k2, v in B.t.items()})
             self.write(st, stmt, st.ptr[qd], n, False, 'loop of %s iteration(s) x %d byte(s)' % (B, cursor_steps))
             st.ptr[qd] = st.ptr[qd].add(n)
@@ -431,7 +469,8 @@ class SymExec:
             self.write(st, stmt, st.ptr[qd], B, False, 'indexed loop over %s byte(s)' % B)
         else:
             return None
-        st.env[ivar['d']] = B
+        if not pointer_loop:
+            st.env[ivar['d']] = B
         # exit: the false edge of the loop condition
         exits = []
         body_nodes = self.cfg.reachable(head.id)
